@@ -24,7 +24,7 @@ var CfgC01 = reg(&MachineCfg{
 		}
 	},
 	Gens: []interface{}{"aol", 60, "commit", 14, "crash", 4, "restart", 4, "export", 5, "bank", 2, "authz", 3, "did", 2, "pnft", 2, "sim_aol", 4},
-	Bias: map[string]int{"right-signers": 88, "exec": 6, "multi": 6},
+	Bias: map[string]int{"right-signers": 88, "exec": 6, "multi": 6, "group": 12},
 	Rule: "rapid state machine over signed txs through DeliverTx/Commit/Query: create-topic/add-writer/delete-writer/add-record by listed, delisted and foreign accounts on prefix-colliding topic names, plus crash, restart and genesis export/import; non-trivial = at least one record acknowledged and afterwards at least one of {its writer removed, restart/crash, export/import, second topic}; distinct = distinct sequence of (step kind, message types, outcome class)",
 	NonTrivial: func(w *world.World) bool {
 		if lab(w, "aol record acknowledged") == 0 {
@@ -42,7 +42,7 @@ var CfgC02 = reg(&MachineCfg{
 		}
 	},
 	Gens: []interface{}{"aol", 64, "commit", 12, "authz", 12, "crash", 2, "restart", 2, "bank", 2, "pnft", 2, "sim_aol", 6},
-	Bias: map[string]int{"right-signers": 55, "exec": 22, "fee-payer": 40, "multi": 18, "tamper": 10},
+	Bias: map[string]int{"right-signers": 55, "exec": 22, "fee-payer": 40, "multi": 18, "tamper": 10, "group": 15},
 	Rule: "same machine with independently chosen signer sets (right, other account, swapped, dropped, garbage signature, wrong sequence, extra), sign modes direct/amino-json/direct-aux, named fee payers and authz grant/revoke/exec; oracle = transition validity on the aol store diff of every DeliverTx; non-trivial = at least one refused AOL attempt and at least one accepted writer-list change or append",
 	NonTrivial: func(w *world.World) bool {
 		return lab(w, "aol refused attempt") > 0 && (lab(w, "aol record acknowledged") > 0 || lab(w, "aol writer added") > 0)
@@ -57,7 +57,7 @@ var CfgC13 = reg(&MachineCfg{
 		}
 	},
 	Gens: []interface{}{"aol", 68, "commit", 18, "crash", 3, "export", 4, "bank", 2, "walks", 3, "sim_aol", 2},
-	Bias: map[string]int{"right-signers": 94, "exec": 3, "multi": 10, "aol-owners": 2, "aol-create": 4, "aol-delw": 3, "aol-rec": 6, "big-listing": 12},
+	Bias: map[string]int{"right-signers": 94, "exec": 3, "multi": 10, "aol-owners": 2, "aol-create": 4, "aol-delw": 3, "aol-rec": 6, "big-listing": 12, "group": 15, "group-actor": 18},
 	Rule: "AOL machine on prefix-related topic names; after every commit the owner/topic counters (store and query) and complete paging walks (key- and offset-style, limits 0/1/2/3/n±1/huge, forward and reverse, with and without count_total) are compared with the model; non-trivial = an owner with >=3 topics, a writer deleted, and a multi-page walk",
 	NonTrivial: func(w *world.World) bool {
 		return lab(w, "c13 multi-page walk") > 0 && lab(w, "aol writer deleted") > 0 && lab(w, "aol topic created") >= 3
@@ -139,7 +139,7 @@ var CfgC06 = reg(&MachineCfg{
 		}
 	},
 	Gens: []interface{}{"pnft", 66, "commit", 12, "authz", 10, "crash", 2, "restart", 2, "bank", 2, "export", 2, "sim_pnft", 5},
-	Bias: map[string]int{"right-signers": 68, "exec": 15, "pnft-handover": 5, "pnft-transfer": 6, "former-owner": 35, "tamper": 6},
+	Bias: map[string]int{"right-signers": 68, "exec": 15, "pnft-handover": 5, "pnft-transfer": 6, "former-owner": 35, "tamper": 6, "group": 12},
 	Rule: "PNFT state machine: the seven message types with actors chosen independently of signers, hand-over chains, burn and re-mint, former owners and creators, ghost receivers, upper-case spellings, authz grant/exec; oracle = transition validity (actor is the current owner and stands behind the tx) + full decoded-store agreement after every DeliverTx; non-trivial = an ownership hand-over followed by a refused attempt of the former owner",
 	NonTrivial: func(w *world.World) bool {
 		return lab(w, "pnft denom handed over")+lab(w, "pnft transferred") > 0 && lab(w, "pnft former owner refused") > 0
@@ -154,7 +154,7 @@ var CfgC12 = reg(&MachineCfg{
 		}
 	},
 	Gens: []interface{}{"pnft", 73, "commit", 16, "crash", 2, "export", 3, "bank", 1, "walks", 2, "sim_pnft", 3},
-	Bias: map[string]int{"right-signers": 95, "exec": 2, "adversarial-ids": 1, "by-owner": 90, "former-owner": 5, "pnft-transfer": 5},
+	Bias: map[string]int{"right-signers": 95, "exec": 2, "adversarial-ids": 1, "by-owner": 90, "former-owner": 5, "pnft-transfer": 5, "group": 10},
 	Rule: "PNFT machine over adversarial identifiers (prefixes of one another, separators, invalid UTF-8, 300-byte ids, NUL while not excluded by an open finding); after every tx the decoded store equals the model, after every commit every single-item view and listing (tokens of denom, by owner, denoms paged, denoms by owner) is compared for all pool arguments; completeness: a fresh pair minted by the denom owner is accepted; non-trivial = >=2 denoms, >=3 tokens minted, a transfer and a burn",
 	NonTrivial: func(w *world.World) bool {
 		return lab(w, "pnft denom created") >= 2 && lab(w, "pnft minted") >= 3 && lab(w, "pnft transferred") > 0 && lab(w, "pnft burned") > 0
@@ -193,7 +193,7 @@ var CfgC08 = reg(&MachineCfg{
 		}
 	},
 	Gens: []interface{}{"aol", 26, "did", 26, "pnft", 30, "commit", 8, "export", 8, "bank", 2},
-	Bias: map[string]int{"right-signers": 95, "exec": 2, "right-proof": 85, "did-deactivate": 18},
+	Bias: map[string]int{"right-signers": 95, "exec": 2, "right-proof": 85, "did-deactivate": 18, "group": 12},
 	Rule: "mixed histories over all custom modules (transferred tokens, handed-over and deleted denoms, burned tokens, tombstones, rich documents, empty/huge record fields), export at random points, optionally chained; oracle = double-export equality, module genesis validation, InitChain succeeds, probe-set answers byte-identical before/after, re-export identical, models agree with the imported chain; non-trivial = an export with entities of >=3 modules and one of {transferred token, handed-over denom, tombstone, writer deleted}",
 	NonTrivial: func(w *world.World) bool {
 		if lab(w, "export_import") == 0 {
@@ -217,7 +217,7 @@ var CfgC08 = reg(&MachineCfg{
 var CfgC15 = reg(&MachineCfg{
 	Prop: "C15", Also: agreement,
 	Gens: []interface{}{"aol", 32, "did", 20, "pnft", 24, "mixed", 10, "commit", 8, "burn", 4, "bank", 2, "gov", 2},
-	Bias: map[string]int{"right-signers": 85, "exec": 0, "multi": 35, "fee-payer": 50, "right-proof": 80, "tamper": 6},
+	Bias: map[string]int{"right-signers": 85, "exec": 0, "multi": 35, "fee-payer": 50, "right-proof": 80, "tamper": 6, "group": 8},
 	Rule: "transactions of 1-4 custom-module messages (any mix, succeeding or failing at any position), fees in {0, small, two denoms, more than the balance}, explicit fee payers, add-record with/without a named fee payer; oracle = per-DeliverTx balance/supply diff and all-or-nothing on the three custom stores; non-trivial = a multi-message tx that failed after the ante, or an add-record with a named fee payer",
 	NonTrivial: func(w *world.World) bool {
 		return lab(w, "c15 multi-message tx failed after ante")+lab(w, "c15 add-record with named fee payer") > 0
@@ -270,7 +270,7 @@ var CfgC09 = reg(&MachineCfg{
 		}
 	},
 	Gens: withGens("commit", 18, "export", 4, "crash", 1),
-	Bias: map[string]int{"right-signers": 88, "exec": 5, "right-proof": 75, "multi": 12},
+	Bias: map[string]int{"right-signers": 88, "exec": 5, "right-proof": 75, "multi": 12, "group": 8},
 	Rule: "differential twin: every committed block (all modules, failing txs, burn deposits, end-blocker activity) is executed by a second, independently constructed instance that is perturbed by CheckTx(New/Recheck), Simulate (also of later txs) and queries between deliveries, a different GOMAXPROCS and time zone, and that re-initialises from its own genesis export; compared at every height: app hash, per-tx code/codespace/data/gas/events, Begin/EndBlock events, probe-set answers; plus (TestC09Concurrent, race detector on) a replica that serves 2-12 goroutines of queries and a CheckTx/Simulate caller while it executes the blocks must reproduce the codes and app hashes of the replica that executed them alone; non-trivial = >=5 compared blocks with >=1 failing tx and >=1 perturbation",
 	NonTrivial: func(w *world.World) bool {
 		return lab(w, "twin block compared") >= 5 && lab(w, "tx handler")+lab(w, "tx ante") > 0 &&
@@ -287,7 +287,7 @@ var CfgC10 = reg(&MachineCfg{
 		}
 	},
 	Gens:       withGens("commit", 14, "crash", 5, "crash_redeliver", 6, "crash_endblock", 3, "restart", 2, "export", 1),
-	Bias:       map[string]int{"right-signers": 92, "exec": 3, "right-proof": 80},
+	Bias:       map[string]int{"right-signers": 92, "exec": 3, "right-proof": 80, "group": 8},
 	Rule:       "histories with stop points after Commit, after BeginBlock, after any prefix of a block's txs and after EndBlock-before-Commit: the instance is abandoned and a new application is opened on the same database; oracle = height, app hash and every mounted store equal the committed snapshot, the re-delivered block reproduces its results, and every later block hash equals a twin that never stopped; non-trivial = a crash inside a block after >=1 delivered tx",
 	NonTrivial: func(w *world.World) bool { return lab(w, "crash after delivered txs") > 0 },
 	Step:       burnStep,
@@ -303,7 +303,7 @@ func burnStep(g *G, kind string) *world.Step {
 var CfgC16 = reg(&MachineCfg{
 	Prop: "C16",
 	Gens: []interface{}{"boundary", 46, "aol", 14, "did", 10, "pnft", 14, "authz", 6, "commit", 10},
-	Bias: map[string]int{"right-signers": 96, "exec": 12, "right-proof": 90},
+	Bias: map[string]int{"right-signers": 96, "exec": 12, "right-proof": 90, "group": 10},
 	Rule: "pipeline half of C16: boundary-directed messages (one field on or next to a documented limit) are sent as signed transactions, alone and wrapped in authz exec, into a populated chain; oracle = every message the independent limit oracle rejects fails and leaves the aol/did/pnft stores byte-identical, and a final scan finds every stored field within the limits; non-trivial = >=3 out-of-limits messages sent and >=1 in-limits message executed",
 	NonTrivial: func(w *world.World) bool {
 		return lab(w, "c16 out-of-limits message sent") >= 3 && lab(w, "c16 in-limits message executed") > 0
